@@ -171,8 +171,21 @@ def proof_step(pid, extra_targets=()):
 
 # ---------------------------------------------------------------- drivers
 
-def _run_lines(cmd, lines, env=None, timeout=600):
-    p = subprocess.run(cmd, input="\n".join(lines) + "\n", capture_output=True, text=True, env=env, timeout=timeout)
+def _limit_mem(mb):
+    import resource
+
+    def f():
+        resource.setrlimit(resource.RLIMIT_AS, (mb << 20, mb << 20))
+    return f
+
+
+def _run_lines(cmd, lines, env=None, timeout=600, mem_mb=None):
+    try:
+        p = subprocess.run(cmd, input="\n".join(lines) + "\n", capture_output=True, text=True, env=env, timeout=timeout,
+                           preexec_fn=_limit_mem(mem_mb) if mem_mb else None)
+    except subprocess.TimeoutExpired as e:
+        out = e.stdout.decode("utf-8", "replace") if isinstance(e.stdout, bytes) else (e.stdout or "")
+        return -9, out, "TIMEOUT"
     return p.returncode, p.stdout, p.stderr
 
 
@@ -185,17 +198,27 @@ def run_model(ops):
     shards = [ops[i::NCPU] for i in range(NCPU)]
 
     def work(shard):
-        if not shard:
-            return {}
-        rc, out, err = _run_lines([exe], [json.dumps(o, ensure_ascii=False) for o in shard], timeout=1800)
+        # The model is total but mirrors the implementation's exponential blow-up on branching
+        # self-references (known finding KF-C08-1): run it under a time and memory budget and
+        # report the op that exhausts it as outside the modelled budget.
         r = {}
-        for line in out.split("\n"):
-            if line.strip():
-                j = json.loads(line)
-                r[j.get("id")] = j
-        if rc != 0 or len(r) != len(shard):
-            for o in shard:
-                r.setdefault(o["id"], {"model_crash": err[-500:]})
+        todo = list(shard)
+        budget = 120
+        while todo:
+            rc, out, err = _run_lines([exe], [json.dumps(o, ensure_ascii=False) for o in todo], timeout=budget, mem_mb=4000)
+            for line in out.split("\n"):
+                if line.strip():
+                    try:
+                        j = json.loads(line)
+                    except Exception:
+                        continue
+                    r[j.get("id")] = j
+            rest = [o for o in todo if o["id"] not in r]
+            if not rest:
+                break
+            r[rest[0]["id"]] = {"id": rest[0]["id"], "unmodelled": True, "model_budget": True}
+            todo = rest[1:]
+            budget = 60
         return r
 
     with ThreadPoolExecutor(NCPU) as ex:
